@@ -244,7 +244,7 @@ def run(tier='quick', seed=0, only=None, verbose=False):
         stubs=['hist = vector of uninterpreted functions of time', 'float() inside base_backend = identity on symbols'],
         assumptions=['reals for floats', 'convergence of dopri5/solve_ivp to the DDE solution is NOT claimed',
                      'the JAX fixed-step kernels refuse delayed models (C20 matrix); torch Euler kernel: run level only'])
-    progs = families.fam_dde(seed, n=8 if tier == 'quick' else 60)
+    progs = families.fam_dde(seed, n=8 if tier == 'quick' else 160)
     edge_progs = families.fam_dde_edges_fixed()
     progs = progs + families.fam_dde_pernode()
     if only:
